@@ -1664,16 +1664,29 @@ def _producer_read_not_suppressed(fb, fn, c, R):
             elif k in ('call', 'construct', 'var') and not (k == 'var' and nx.get('vk') in ('enumconst', 'global', 'static_member')):
                 return False
         return fields > 0
+    # what the read requires of the constructor-fixed mode members (e.g. m_buffer == false); as these never change after
+    # construction, every edge anywhere in the function on which such a test has the opposite value belongs to the other variant
+    required = {}
+    for (cnd, sense, _b) in guards_of(fn, c['id']):
+        atom, neg = _cond_atom(fn, cnd)
+        if atom is not None and atom.get('k') not in ('binop',) and mode_test(atom['id']):
+            required[fn.expr(atom['id'])] = (sense != neg)
+        elif atom is not None and atom.get('k') == 'binop' and atom.get('op') in ('==', '!=', '<', '>', '<=', '>=') and mode_test(atom['id']):
+            required[fn.expr(atom['id'])] = (sense != neg)
     pruned = set()
-    for (cnd, sense, b) in guards_of(fn, c['id']):
-        blk = fn.blocks[b]
-        if blk.get('cond') is not None and fn.strip(blk['cond']) == fn.strip(cnd) and mode_test(cnd):
-            pruned.add((b, 1 if sense else 0))     # the edge into the other (in-memory) variant
-        elif mode_test(cnd):
-            atom, neg = _cond_atom(fn, blk.get('cond')) if blk.get('cond') is not None else (None, False)
-            if atom is not None and atom['id'] == (fn.sn(cnd) or {}).get('id'):
-                val = sense != neg
-                pruned.add((b, 1 if val else 0))
+    for blk in fn.blocks.values():
+        if 'cond' not in blk or len(blk['succs']) != 2 or blk.get('termcls') == 'SwitchStmt':
+            continue
+        atom, neg = _cond_atom(fn, blk['cond'])
+        if atom is None:
+            continue
+        want = required.get(fn.expr(atom['id']))
+        if want is None or not mode_test(atom['id']):
+            continue
+        for idx in (0, 1):
+            val = (idx == 0) != neg
+            if val != want:
+                pruned.add((blk['id'], idx))
     cid = c['id']
     wit = path_search(fn, fn.entry, _exit_t, lambda e: e == cid or _is_throw(fn, e),
                       _normal_edges(fn, lambda b, idx, s_: (b, idx) not in pruned), from_block_start=True)
